@@ -15,9 +15,9 @@ for f in files:
     msg=txt[:m.start()].strip()
     msg="\n".join(l for l in msg.split("\n") if not l.startswith("(apply with"))
     body=txt[m.start():]
-    p=subprocess.run(["patch","-p1","--no-backup-if-mismatch","-s"],input=body,text=True,cwd=tmp,capture_output=True)
+    p=subprocess.run(["patch","-p1","--no-backup-if-mismatch","-s","--forward","--batch","-r","/dev/null"],input=body,text=True,cwd=tmp,capture_output=True)
     if p.returncode!=0:
-        print("FAILED to apply",f,p.stdout,p.stderr); continue
+        print("FAILED to apply",f,p.stdout[:200],p.stderr[:200]); sh("git","-C",tmp,"checkout","--","."); sh("git","-C",tmp,"clean","-fdq"); continue
     sh("git","-C",tmp,"add","-A")
     c=sh("git","-C",tmp,"commit","-q","-m",msg)
     if c.returncode!=0: print("commit failed",f,c.stdout,c.stderr); continue
